@@ -42,9 +42,9 @@ _PATTERN_TIME = r"^%s(?:%s)?$" % (_SNIPPET_TIME, _SNIPPET_ZONE)
 _PATTERN_DATETIME = r"^%s[T ]%s(?:%s)?$" % (_SNIPPET_DATE, _SNIPPET_TIME,
                                             _SNIPPET_ZONE)
 
-_RE_DATE = re.compile(_PATTERN_DATE)
-_RE_TIME = re.compile(_PATTERN_TIME)
-_RE_DATETIME = re.compile(_PATTERN_DATETIME)
+_RE_DATE = re.compile(_PATTERN_DATE, re.ASCII)
+_RE_TIME = re.compile(_PATTERN_TIME, re.ASCII)
+_RE_DATETIME = re.compile(_PATTERN_DATETIME, re.ASCII)
 
 
 class Date(UnicodeMixin):
